@@ -152,6 +152,19 @@ def _write_config(obj, syntax, path_base):
     return p
 
 
+# utterance ids: plain, or with prefix / substring relations and different lengths (ids are also the
+# keys of npz / hdf5 containers and the lines of the manifest)
+_UID_POOLS = (
+    ("utt0", "utt1", "utt2", "utt3", "utt4", "utt5"),
+    ("utt10", "utt1", "utt", "spk-utt10", "ab", "a"),
+    ("a", "ab", "utt", "utt1", "utt10-x", "x-utt"),
+)
+
+
+def _uid(case, i):
+    return _UID_POOLS[case.get("ids", 0) % len(_UID_POOLS)][i]
+
+
 def _samples(u, rate_unused=None):
     rng = np.random.Generator(np.random.PCG64(u["seed"]))
     amp = u.get("amp", 3000)
@@ -195,7 +208,7 @@ def _run_kaldi(case, td, syntax, tag):
             w.setframerate(u.get("rate", rate))
             w.writeframes(np.ascontiguousarray(_samples(u).T).tobytes())
             w.close()
-            f.write("utt%d %s\n" % (i, p))
+            f.write("%s %s\n" % (_uid(case, i), p))
     ark = os.path.join(td, "feats_%s.ark" % tag)
     args = ["scp:" + scp, "ark:" + ark, _write_config(computer_config(case["comp"], key), syntax, os.path.join(td, "comp_" + tag))]
     if case["channel"] != -1:
@@ -233,7 +246,7 @@ def _kaldi_expected(case):
         if case["channel"] >= u["channels"]:
             continue
         ch = case["channel"] if case["channel"] != -1 else 0
-        exp["utt%d" % i] = _samples(u)[ch]
+        exp[_uid(case, i)] = _samples(u)[ch]
     return exp
 
 
@@ -317,7 +330,7 @@ def _torch_inputs(case):
             sel = s[case["channel"] if case["channel"] != -1 else 0]
         if kind != "wav":
             arr = arr.astype({"i16": np.int16, "f32": np.float32, "f64": np.float64}[u.get("dtype", "i16")])
-        out["utt%d" % i] = (kind, arr, sel)
+        out[_uid(case, i)] = (kind, arr, sel)
     return out
 
 
@@ -355,7 +368,7 @@ def _run_torch(case, td, syntax, tag, seed=None, workers=0):
         with open(manifest, "w") as f:
             for i in case["manifest"]:
                 if i < len(case["utts"]):
-                    f.write("utt%d\n" % i)
+                    f.write("%s\n" % _uid(case, i))
         args += ["--manifest", manifest]
     with _quiet():
         rc = call("signals-to-torch-feat-dir", command_line.signals_to_torch_feat_dir, args)
@@ -373,7 +386,7 @@ def _run_torch(case, td, syntax, tag, seed=None, workers=0):
 
 def check_torch(case):
     inputs = _torch_inputs(case)
-    pre_listed = set("utt%d" % i for i in (case.get("manifest") or []) if i < len(case["utts"]))
+    pre_listed = set(_uid(case, i) for i in (case.get("manifest") or []) if i < len(case["utts"]))
     exp_samples = {u: sel for u, (k, a, sel) in inputs.items() if u not in pre_listed}
     ref = _reference(case, exp_samples)
     with tempfile.TemporaryDirectory(prefix="verif_c09_") as td:
@@ -491,6 +504,7 @@ def _kaldi_cases(draw):
         "channel": channel, "min_duration": draw(st.sampled_from([0, 0, 0, 0.0042, 0.0203])),
         "syntax": syn, "other_syntax": draw(st.sampled_from([None, None, "inline", "json", "yaml"])),
         "alias_key": draw(st.sampled_from(["alias", "name"])), "seed": draw(st.one_of(st.none(), st.integers(0, 1000))),
+        "ids": draw(st.integers(0, 2)),
     }
 
 
@@ -520,6 +534,7 @@ def _torch_cases(draw):
         "alias_key": draw(st.sampled_from(["alias", "name"])), "seed": draw(st.one_of(st.none(), st.integers(0, 1000))),
         "manifest": draw(st.one_of(st.none(), st.none(), st.lists(st.integers(0, nutt - 1), max_size=2, unique=True))),
         "workers": draw(st.sampled_from([0] * 11 + [2])),
+        "ids": draw(st.integers(0, 2)),
     }
 
 
